@@ -501,12 +501,27 @@ func (s *segment) close() error {
 
 // Cleaned creates a cleaned segment for this segment.
 func (s *segment) Cleaned() (*segment, error) {
-	return newSegment(s.path, s.BaseOffset, s.maxBytes, false, cleanedSuffix)
+	return s.rewriteTarget(cleanedSuffix)
 }
 
 // Truncated creates a truncated segment for this segment.
 func (s *segment) Truncated() (*segment, error) {
-	return newSegment(s.path, s.BaseOffset, s.maxBytes, false, truncatedSuffix)
+	return s.rewriteTarget(truncatedSuffix)
+}
+
+// rewriteTarget creates the empty segment that a clean or a truncation
+// rewrites this segment into. Files left behind by a rewrite that was
+// interrupted (a crash, an error half-way) are discarded first: they are
+// opened for appending, so their stale content would otherwise end up in the
+// rewritten segment.
+func (s *segment) rewriteTarget(suffix string) (*segment, error) {
+	target := &segment{path: s.path, BaseOffset: s.BaseOffset, suffix: suffix}
+	for _, file := range []string{target.logPath(), target.indexPath()} {
+		if err := os.Remove(file); err != nil && !os.IsNotExist(err) {
+			return nil, errors.Wrap(err, "failed to remove leftover segment file")
+		}
+	}
+	return newSegment(s.path, s.BaseOffset, s.maxBytes, false, suffix)
 }
 
 // Replace replaces the given segment with the callee.
